@@ -5,6 +5,7 @@ pub mod c02_c13;
 pub mod c06;
 pub mod c15;
 pub mod c16;
+pub mod c17;
 pub mod c19;
 pub mod c20;
 pub mod consist_lab;
@@ -31,6 +32,7 @@ pub fn get(id: &str) -> Option<Box<dyn Prop>> {
         "C15" => Some(Box::new(c15::C15)),
         "C19" => Some(Box::new(c19::C19)),
         "C20" => Some(Box::new(c20::C20)),
+        "C17" => Some(Box::new(c17::C17)),
         _ => None,
     }
 }
